@@ -18,7 +18,7 @@ if [ $rc -eq 0 ]; then
 for c in "$@"; do
   out=$(VERIF_REPO=$wt /verif/check $c --tier quick --no-evidence 2>&1)
   code=$?
-  echo "MUT $name $c exit=$code $(echo "$out" | grep -c '^VIOLATION') violations; $(echo "$out" | grep '^VIOLATION' | head -1 | cut -c1-260) $(echo "$out" | grep '^INCONCLUSIVE' | head -1 | cut -c1-200)"
+  echo "MUT $name $c exit=$code $(echo "$out" | grep -c '^VIOLATION') violations; $(echo "$out" | grep 'violation key' | head -1 | cut -c1-260) $(echo "$out" | grep '^INCONCLUSIVE' | head -1 | cut -c1-200)"
 done
 fi
 git -C /repo worktree remove --force $wt
